@@ -527,9 +527,37 @@ def run(ctx, rep):
     rep.floor("C10.Ident construction sites", n_sites, 7)
     rep.floor("C10.Ident constructions derived from another Ident", n_derived, 2)
     scope_discipline(F, rep)
+    scope_record(F, rep)
     scope_walk(F, rep)
     const_flag(F, rep)
     member_names_are_not_variables(F, rep)
+
+
+def scope_record(F, rep):
+    """The const flag lives in the scope's record of a name (an Ident, hashed by its name).  Whatever a declaration decides about the name -
+    a new type, `const` - reaches later checks only if Scope::add_dependency writes the record it is given: every path from its entry to a
+    return passes the set's `replace` / `insert` of (a clone of) the parameter.  A path that returns early keeps the old record, old
+    read_only flag included."""
+    f = F.fn("compiler::scope::Scope::add_dependency")
+    if f is None:
+        raise AnchorMissing("Scope::add_dependency")
+    writes = [c for c in f.calls() if mir.short(c.callee()).split("::")[-1] in ("replace", "insert") and ("HashSet" in c.callee() or "HashMap" in c.callee() or "BTree" in c.callee())]
+    good = []
+    for c in writes:
+        org = set()
+        for a in c.args[1:]:
+            l = op_local(a)
+            if l is not None:
+                org |= {o for (o, fs) in (rules.trace_paths(f, l, transparent=rules.TRANSPARENT | {"core::clone::Clone::clone"}) or [])}
+        if ("arg", 2) in org:
+            good.append(c)
+    rets = [bi for bi, blk in enumerate(f.blocks) if blk["t"]["k"] == "return"]
+    ok = bool(good) and all(rules.call_dominates(f, good, b) for b in rets)
+    rep.ob("C10.flag-carried", "Scope::add_dependency writes the record it is given on every path (no early return keeps the old one)",
+           "ok" if ok else "violated",
+           "" if ok else ("a return is reachable without the set's replace/insert of the given identifier: `x = 5` then `const x = 20` (same type) keeps the "
+                          "non-const record of x and every later write to the constant is accepted" if good else "no replace/insert of the parameter found"),
+           f.span, fn=f.path, key="C10.flag-carried|scope-record")
 
 
 def scope_discipline(F, rep):
